@@ -278,7 +278,15 @@ retry_fetch_lv:
 
         // skip callback. will called in findnext
         // expception: if start=end, findnext does not call cb, so need cb here
-        if (range_is_one_point) {
+        // The same holds when only the tuples of start and end are equal in
+        // this layer (both endpoints lie inside one next layer that does not
+        // exist): findnext takes the callback range for empty, but keys of
+        // the interval can still be inserted below this border.
+        const bool same_tuple_as_end =
+                cmp_to_end == 0 &&
+                ctx->get_end_point() == scan_endpoint::INCLUSIVE &&
+                key_tup == ctx->get_end_tuple(0);
+        if (range_is_one_point || same_tuple_as_end) {
             if (bnv_cb(target_border->get_version_ptr(), v_at_fetch_lv)) { return status::WARN_ABORTED_BY_USER; }
         }
 
